@@ -624,9 +624,25 @@ func (t *streamableHTTPClientTransport) getLastEventID() string {
 
 // setLastEventID records the ID of the last event received.
 func (t *streamableHTTPClientTransport) setLastEventID(eventID string) {
+	// The ID is sent back in the Last-Event-ID header of later requests. One that is not a valid
+	// header value would make every later request fail, so it is not recorded.
+	if !isValidEventID(eventID) {
+		return
+	}
 	t.stateMu.Lock()
 	defer t.stateMu.Unlock()
 	t.lastEventID = eventID
+}
+
+// isValidEventID reports whether an event ID received from the server can be carried in an HTTP
+// header: no control characters other than horizontal tab.
+func isValidEventID(eventID string) bool {
+	for i := 0; i < len(eventID); i++ {
+		if c := eventID[i]; (c < 0x20 && c != '\t') || c == 0x7f {
+			return false
+		}
+	}
+	return true
 }
 
 // getSSEEnabled reports whether the GET SSE stream is enabled.
